@@ -452,7 +452,10 @@ def generate(seed, index, tier):
     k2 = st["knobs2"]
     k3 = st["knobs3"]
     if k3.bernoulli(0.25):
-        recipe["shape_value"] = round(k3.uniform(0.05, 0.3), 3)  # rate categories spanning orders of magnitude
+        # rate categories spanning orders of magnitude - but not beyond 0.2: below that the slowest category
+        # puts fewer than 1e-9 expected substitutions on a short branch, where 0.25 - 0.25 exp(-4t/3) loses
+        # its digits to cancellation at any tree size (found by the thorough tier: 50 taxa, rel. 6.6e-8)
+        recipe["shape_value"] = round(k3.uniform(0.2, 0.3), 3)
     if k3.bernoulli(0.22) and style != "clade" and not many_sites:
         # single precision: smaller trees reach its (much closer) underflow limits
         recipe["dtype"] = "float32"
